@@ -101,6 +101,13 @@ def corpus_games():
         out.append((dict(rewards=[0, 1, 3, 0, 0, 5], players=[P1, PR, PR, PR, PR, PR],
                          transition_list=[[("a", 1), ("b", 3)], row, [(1, 3)], [(1, 3)], [(1, 4)], [(1, 3)]], final_states=[3]),
                     dict(fr=[None, [Fr(x) for x, _ in row], [Fr(1)], [Fr(1)], [Fr(1)], [Fr(1)]], style="corpus")))
+    # binary64 weights that do not add up to exactly 1.0 (0.7+0.2+0.1 = 0.9999999999999999) at a state with no dead successor:
+    # nothing is to be rescaled there, whatever the sum
+    for ws in ((0.7, 0.2, 0.1), (0.1, 0.2, 0.7), (0.6, 0.3, 0.1)):
+        out.append((dict(rewards=[1, 2, 4, 8, 0, 0], players=[PR, PR, PR, PR, PR, PR],
+                         transition_list=[[(ws[0], 1), (ws[1], 2), (ws[2], 3)], [(0.5, 4), (0.5, 5)], [(1, 4)], [(0.25, 4), (0.75, 2)],
+                                          [(1, 4)], [(1, 5)]], final_states=[4]),
+                    dict(fr=[[Fr(w) for w in ws], [Fr(1, 2), Fr(1, 2)], [Fr(1)], [Fr(1, 4), Fr(3, 4)], [Fr(1)], [Fr(1)]], style="corpus")))
     # Player 1 with two adjacent dead successors
     g = dict(rewards=[1, 0, 0, 0, 0], players=[P1, PR, PR, PR, PR],
              transition_list=[[("a", 1), ("b", 2), ("c", 3)], [(1, 1)], [(1, 2)], [(1, 3)], [(1, 4)]], final_states=[3])
@@ -405,6 +412,18 @@ def late_edit_check(ctx, recs, fields, count, tag):
         extra = ctx.rng.choice([s for s in range(len(r.game["players"])) if s not in r.game["final_states"]])
         extras.append(extra)
         g2 = dict(r.game, final_states=list(r.game["final_states"]) + [extra])
+        if len(jobs) % 4 == 2:
+            # every second case: solve, redirect one transition to that state in place, solve again through the same object
+            cand = [(s, k) for s, row in enumerate(r.game["transition_list"]) for k in range(len(row)) if row[k][1] != extra]
+            if cand:
+                s, k = ctx.rng.choice(cand)
+                tl2 = [list(row) for row in r.game["transition_list"]]
+                tl2[s][k] = (tl2[s][k][0], extra)
+                g2 = dict(r.game, transition_list=tl2)
+                extras[-1] = ("redirect", s, k, extra)
+                jobs.append(dict(op="solve_late", game=enc(r.game), prune=r.prune, redirect=[s, k, extra]))
+                jobs.append(dict(op="solve", game=enc(g2), prune=r.prune))
+                continue
         jobs.append(dict(op="solve_late", game=enc(r.game), prune=r.prune, extra=extra))
         jobs.append(dict(op="solve", game=enc(g2), prune=r.prune))
     res = impl.run_cases(jobs, limit=10, tag=tag + "late")
@@ -417,7 +436,7 @@ def late_edit_check(ctx, recs, fields, count, tag):
         ra, rb = Rec(r.game, r.meta, r.prune, "solve", a), Rec(r.game, r.meta, r.prune, "solve", b)
         inp = dict(r.inp(), final_state_added_after_construction=extras[k])
         if ra.ok != rb.ok or (not ra.ok and (a.get("exc"), a.get("msg")) != (b.get("exc"), b.get("msg"))):
-            ctx.violation("final state %d appended after the StochasticGame was built: outcome %s; built from the edited description: %s"
+            ctx.violation("description edited (%s) after the StochasticGame was built: outcome %s; built from the edited description: %s"
                           % (extras[k], ra.describe(), rb.describe()), inp)
             continue
         if not ra.ok:
@@ -425,11 +444,39 @@ def late_edit_check(ctx, recs, fields, count, tag):
         for f in fields:
             x, y = (ra.pruned, rb.pruned) if f == "pruned" else (ra.out[FIELDS[f]], rb.out[FIELDS[f]])
             if x != y:
-                ctx.violation("final state %d appended after the StochasticGame was built: %s comes out as %r; built from the "
-                              "edited description: %r" % (extras[k], f, x, y), inp)
+                ctx.violation("description edited (%s: a final state appended, or a transition redirected after a first solve) after the "
+                              "StochasticGame was built: %s comes out as %r; built from the edited description: %r" % (extras[k], f, x, y), inp)
                 break
 
 
 def mismatch_first(recs):
     """where model and implementation disagree is where a failing input is most likely: budgeted oracles go there first"""
     return sorted(recs, key=lambda r: 0 if r.meta.get("mismatch") else 1)
+
+
+def optimize_check(ctx, recs, fields, count, tag):
+    """the same solves in an interpreter started with -O (assert statements compiled away, __debug__ false): the fields of this
+    property must come out bit for bit the same - nothing the solver needs may live in an assert"""
+    pool = [r for r in recs if r.op == "solve" and "timeout" not in r.res
+            and all(isinstance(row, list) for row in r.game["transition_list"])]
+    ctx.rng.shuffle(pool)
+    pool = pool[:count]
+    res = impl.run_cases([dict(op="solve", game=enc(r.game), prune=r.prune, share=bool(r.meta.get("share"))) for r in pool],
+                         limit=20, tag=tag + "opt", pyflags=("-O",))
+    for r, x in zip(pool, res):
+        ctx.evaluations += 1
+        ctx.count("re-run under python -O")
+        if "timeout" in x:
+            continue
+        d = Rec(r.game, r.meta, r.prune, r.op, x)
+        inp = dict(r.inp(), interpreter="python -O")
+        if r.ok != d.ok or (not r.ok and (r.res.get("exc"), r.res.get("msg")) != (x.get("exc"), x.get("msg"))):
+            ctx.violation("under python -O the outcome is %s, otherwise %s" % (d.describe(), r.describe()), inp)
+            continue
+        if not r.ok:
+            continue
+        for f in fields:
+            a, b = (d.pruned, r.pruned) if f == "pruned" else (d.out[FIELDS[f]], r.out[FIELDS[f]])
+            if a != b:
+                ctx.violation("under python -O %s comes out as %r, otherwise %r" % (f, a, b), inp)
+                break
